@@ -320,7 +320,6 @@ pub fn market_session<const A: usize, const L: usize>(cfg: &MarketCfg, cs: &mut 
                             Ok(()) => Market::<A, L>::load_json(&path).map_err(|e| e.to_string()),
                             Err(e) => Err(e.to_string()),
                         };
-                        let _ = std::fs::remove_file(&path);
                         l
                     }
                 };
